@@ -11,7 +11,7 @@ from fv import core  # noqa: E402
 
 crate, timeout_s, harnesses = sys.argv[1], int(sys.argv[2]), sys.argv[3:]
 scratch = core.Scratch()
-done, lost = core.inject_kani(scratch, only_crates={crate})
+done, lost = core.inject_kani(scratch)  # all crates: a harness may use helpers injected into a dependency
 print("lost anchors:", lost)
 recs, meta = core.run_kani(scratch, crate, harnesses, timeout_s, jobs=max(2, min(4, len(harnesses))))
 for h, r in recs.items():
